@@ -277,6 +277,14 @@ fn gen(rng: &mut Rng, tier: &str) -> Vec<(String, Value)> {
             if thorough || have == 65536 { big.push(case("boundary.chunk", "https", &d)); }
         }
     }
+    // a bogus declared length with MORE than one chunk of real data behind it (a reader that trusts the declared
+    // length once the first chunk has arrived asks for the bogus size): every extreme, two amounts of data
+    for len in [1u64 << 28, 1 << 32, 1 << 40, (1 << 63) - 1, 1 << 63, u64::MAX - 1, u64::MAX] {
+        for have in [65536usize + 1, 65536 * 2 + 7] {
+            let mut d = len.to_be_bytes().to_vec(); d.extend(std::iter::repeat(0x61u8).take(have));
+            big.push(case("boundary.chunk_bogus", "bytes", &d));
+        }
+    }
     // (c) structured: all truncations and single-byte corruptions of valid encodings
     let per_kind = if thorough { 6 } else { 2 };
     for kind in KINDS {
